@@ -534,6 +534,28 @@ func c19RunSwarm(c *c19Cfg, timeout time.Duration, timeoutTok string) (recs []c1
 	case <-time.After(timeout):
 		converged = false
 	}
+	// a Download whose blob is already complete in the cache returns within moments: before calling it a
+	// hang, give it a generous grace period (machine load delays goroutines, not a lost wake-up)
+	if !converged {
+		grace := time.Now().Add(45 * time.Second)
+		for time.Now().Before(grace) {
+			pendingComplete := false
+			mu.Lock()
+			for _, p := range peers {
+				if p.dl == "" && p.cads != nil {
+					if r, err := p.cads.Cache().GetFileReader(d.Hex()); err == nil {
+						r.Close()
+						pendingComplete = true
+					}
+				}
+			}
+			mu.Unlock()
+			if !pendingComplete {
+				break
+			}
+			time.Sleep(50 * time.Millisecond)
+		}
+	}
 	// freeze the outcome of every Download, then stop all schedulers so that the trace is closed
 	mu.Lock()
 	for _, p := range peers {
@@ -546,7 +568,8 @@ func c19RunSwarm(c *c19Cfg, timeout time.Duration, timeoutTok string) (recs []c1
 		p.sched.Stop()
 	}
 	// every accepted write has produced its receive_piece event
-	deadline := time.Now().Add(10 * time.Second)
+	settled := false
+	deadline := time.Now().Add(120 * time.Second)
 	for time.Now().Before(deadline) {
 		lg.mu.Lock()
 		okw, rcv := 0, 0
@@ -560,9 +583,14 @@ func c19RunSwarm(c *c19Cfg, timeout time.Duration, timeoutTok string) (recs []c1
 		}
 		lg.mu.Unlock()
 		if okw == rcv {
+			settled = true
 			break
 		}
 		time.Sleep(20 * time.Millisecond)
+	}
+	if !settled {
+		// the trace is not closed (an accepted write without its event): it cannot be replayed faithfully
+		return nil, converged, "unsettled"
 	}
 	// final observations of every peer (the departed ones too)
 	for _, p := range peers {
@@ -638,6 +666,11 @@ func c19Exec(tr *verifh.T, c verifh.Case) {
 	t0 := time.Now()
 	defer func() { tr.Count("swarm_wall_ms_total", int(time.Since(t0).Milliseconds())) }()
 	recs, ok, setupErr := c19RunSwarm(cfg, timeout, "timeout1")
+	if setupErr == "unsettled" {
+		tr.Comment("swarm trace did not settle within the deadline; not reported")
+		tr.Count("swarms_unsettled", 1)
+		return
+	}
 	if setupErr != "" {
 		// writing the blob's own pieces, in order, into a fresh torrent must succeed
 		tr.Cfg(raw...)
@@ -652,7 +685,13 @@ func c19Exec(tr *verifh.T, c verifh.Case) {
 		// "did not converge within the timeout" as such is only reported after a retry of the whole swarm
 		tr.Count("swarm_retries", 1)
 		tr.Comment("swarm did not converge within the timeout; retrying once")
-		recs, ok, _ = c19RunSwarm(cfg, 2*timeout, "timeout")
+		var serr string
+		recs, ok, serr = c19RunSwarm(cfg, 2*timeout, "timeout")
+		if serr != "" {
+			tr.Comment("retry of the swarm could not be recorded: " + serr)
+			tr.Count("swarms_unsettled", 1)
+			return
+		}
 		c19Emit(tr, raw, 2, recs)
 		if !ok {
 			tr.Count("swarms_not_converged", 1)
